@@ -9,6 +9,8 @@ python3 tools/ser2lean.py /repo
 python3 tools/acc2lean.py /repo
 python3 tools/nfa2lean.py /repo
 python3 tools/dbl2lean.py /repo
+python3 tools/map2lean.py /repo
+python3 tools/top2lean.py /repo
 (cd lean && lake build Daac driver)
 (cd harness && CARGO_NET_OFFLINE=true RUSTFLAGS="--cfg daachorse_verif -C debug-assertions=on" \
   cargo build --release --offline --target-dir ../.cache/target)
